@@ -58,3 +58,12 @@ Definition row_sound (b : N) (t : tagged) (r : row) : Prop :=
   | MK _ _ => False
   end /\
   forall T, snd t = Some T -> r_time r = None \/ r_time r = Some (true_time T).
+
+(* the outcome demanded of a damaged board stream `stream` whose tagged entries are L, for EVERY cutting of the stream
+   into banks (pieces: only banks of board b, concatenating to the stream): the run fails as a whole (no CSV), or the
+   rows are in ordered one-to-one correspondence with the owed words and every surviving edge has an empty or its
+   true time *)
+Definition fault_sound (b : N) (stream : list N) (L : list tagged) : Prop :=
+  forall pieces, (forall b', present b' pieces = (b' =? b)) -> concat_of b pieces = stream ->
+  (exists k, cb_program pieces = Err k) \/
+  (exists rows, cb_program pieces = Ok rows /\ Forall2 (row_sound b) (owed false L) rows).
